@@ -1144,3 +1144,173 @@ def _total_ordering(I, c):
 @model("collections.namedtuple")
 def _namedtuple(I, name, fields):
     raise Unsupported("namedtuple")
+
+
+# ---- re ------------------------------------------------------------------------------------------------
+import re as _re_mod
+
+
+class RegexVal:
+    def __init__(self, pattern, flags=0):
+        self.pattern = pattern
+        self.flags = flags
+        self.rx = _re_mod.compile(pattern, flags)
+
+
+class MatchVal:
+    """Result of a successful match: groups are concrete strings or structured strings."""
+
+    def __init__(self, groups, whole=None):
+        self.groups = groups      # index -> value (0 = whole match)
+
+
+MODELS["re.IGNORECASE"] = _re_mod.IGNORECASE
+MODELS["re.I"] = _re_mod.IGNORECASE
+MODELS["re.MULTILINE"] = _re_mod.MULTILINE
+MODELS["re.DOTALL"] = _re_mod.DOTALL
+MODELS["re.VERBOSE"] = _re_mod.VERBOSE
+
+
+@model("re.compile")
+def _re_compile(I, pattern, flags=0):
+    return RegexVal(pattern, flags)
+
+
+def _as_rx(p, flags=0):
+    return p if isinstance(p, RegexVal) else RegexVal(p, flags)
+
+
+def _wrap_match(m):
+    if m is None:
+        return None
+    return MatchVal({0: m.group(0), **{i + 1: g for i, g in enumerate(m.groups())}})
+
+
+def _letters_prefix_rule(I, s):
+    """Group 1 of '([A-Z]+).*' (IGNORECASE) on a structured string: the maximal leading run of letters.
+
+    Assumed (model id 're.letters-prefix'): [A-Z] under IGNORECASE matches exactly the ASCII letters plus U+0130, U+0131,
+    U+017F, U+212A; the greedy group takes the longest such prefix; '.*' always matches the rest.
+    """
+    from .strings import SStr, Lit, Sym
+    letters = set("abcdefghijklmnopqrstuvwxyzABCDEFGHIJKLMNOPQRSTUVWXYZİıſK")
+    acc = ""
+    for seg in s.segs:
+        if isinstance(seg, Lit):
+            k = 0
+            while k < len(seg.text) and seg.text[k] in letters:
+                k += 1
+            acc += seg.text[:k]
+            if k < len(seg.text):
+                break
+        elif isinstance(seg, Sym) and seg.lang in ("digits+",):
+            break
+        else:
+            raise Unsupported("letters-prefix rule: segment of unknown first-character class")
+    if not acc:
+        return None
+    return MatchVal({0: s, 1: acc})
+
+
+@model("re.match")
+def _re_match(I, pat, s, flags=0):
+    from .strings import SStr
+    rx = _as_rx(pat, flags)
+    if isinstance(s, SStr):
+        c = s.concrete_or_self()
+        if isinstance(c, str):
+            s = c
+    if isinstance(s, str):
+        return _wrap_match(rx.rx.match(s))
+    if rx.pattern == "([A-Z]+).*" and rx.flags & _re_mod.IGNORECASE:
+        I.used_models.add("re.letters-prefix")
+        return _letters_prefix_rule(I, s)
+    raise Unsupported(f"re.match of pattern {rx.pattern!r} on a symbolic string")
+
+
+def _concrete_str(s):
+    from .strings import SStr
+    if isinstance(s, SStr):
+        return s.concrete()
+    return s
+
+
+@model("re.search")
+def _re_search(I, pat, s, flags=0):
+    return _wrap_match(_as_rx(pat, flags).rx.search(_concrete_str(s)))
+
+
+@model("re.fullmatch")
+def _re_fullmatch(I, pat, s, flags=0):
+    return _wrap_match(_as_rx(pat, flags).rx.fullmatch(_concrete_str(s)))
+
+
+@model("re.findall")
+def _re_findall(I, pat, s, flags=0):
+    return _as_rx(pat, flags).rx.findall(_concrete_str(s))
+
+
+@model("re.sub")
+def _re_sub(I, pat, repl, s, count=0, flags=0):
+    return _as_rx(pat, flags).rx.sub(repl, _concrete_str(s), count)
+
+
+@model("re.split")
+def _re_split(I, pat, s, maxsplit=0, flags=0):
+    return _as_rx(pat, flags).rx.split(_concrete_str(s), maxsplit)
+
+
+model("RegexVal.match")(lambda I, rx, s: _re_match(I, rx, s))
+model("RegexVal.search")(lambda I, rx, s: _re_search(I, rx, s))
+model("RegexVal.fullmatch")(lambda I, rx, s: _re_fullmatch(I, rx, s))
+model("RegexVal.findall")(lambda I, rx, s: _re_findall(I, rx, s))
+model("RegexVal.sub")(lambda I, rx, repl, s, count=0: _re_sub(I, rx, repl, s, count))
+model("RegexVal.split")(lambda I, rx, s, maxsplit=0: _re_split(I, rx, s, maxsplit))
+
+
+@model("MatchVal.group")
+def _m_group(I, m, *idx):
+    if not idx:
+        return m.groups[0]
+    if len(idx) == 1:
+        if idx[0] not in m.groups:
+            raise PyRaise("IndexError", "no such group")
+        return m.groups[idx[0]]
+    return tuple(m.groups[i] for i in idx)
+
+
+@model("MatchVal.groups")
+def _m_groups(I, m):
+    return tuple(m.groups[i] for i in sorted(m.groups) if i > 0)
+
+
+# ---- collections ---------------------------------------------------------------------------------------
+@model("collections.Counter")
+def _counter(I, it=()):
+    import ast as _ast
+    d = {}
+    keys = []
+    for x in I.iterate(it):
+        found = None
+        for k in keys:
+            c = I.truth(I.compare(_ast.Eq(), k, x))
+            if I.decide(c):
+                found = k
+                break
+        if found is None:
+            keys.append(x)
+            d[id(x)] = [x, 1]
+        else:
+            d[id(found)][1] += 1
+    return CounterVal([(v[0], v[1]) for v in d.values()])
+
+
+class CounterVal:
+    def __init__(self, pairs):
+        self.pairs = pairs
+
+
+model("CounterVal.items")(lambda I, c: list(c.pairs))
+model("CounterVal.keys")(lambda I, c: [k for k, _ in c.pairs])
+model("CounterVal.values")(lambda I, c: [v for _, v in c.pairs])
+model("CounterVal.most_common")(lambda I, c, n=None: sorted(c.pairs, key=lambda kv: -kv[1])[:n])
